@@ -467,7 +467,7 @@ alac_decode (ALAC_DECODER *p, struct BitBuffer * bits, int32_t * sampleBuffer, u
 							p->mMixBufferU [i] = val | BitBufferRead (bits, (uint8_t) extraBits) ;
 
 							val = (int32_t) BitBufferRead (bits, 16) ;
-							val = ((uint32_t) val) >> shift ;
+							val = (((uint32_t) val) << 16) >> shift ;
 							p->mMixBufferV [i] = val | BitBufferRead (bits, (uint8_t) extraBits) ;
 						}
 					}
